@@ -31,7 +31,9 @@ def _adapter(item):
     if not cls.heavy:
         from ._light import light
         light()
-    return cls(cls.configs[item["cfg"]] if isinstance(item["cfg"], int) else item["cfg"], item.get("seed", 0))
+    cfg = dict(cls.configs[item["cfg"]] if isinstance(item["cfg"], int) else item["cfg"])
+    cfg.update(item.get("cfg_extra") or {})
+    return cls(cfg, item.get("seed", 0))
 
 
 def _params_snapshot(est, ad):
